@@ -19,4 +19,31 @@ def writtenTimestamp (startNs : Int) : Int := startNs / nsPerSec
 /-- `return 0 if ret else 1` after `ret &= …` over the requested paths -/
 def verifyExit (rets : List Bool) : Nat := if rets.all id then 0 else 1
 
+/-- the TIMESTAMP refresh between scan and save: `ts.ts = start_ts` on the first
+    TIMESTAMP entry found (deepest Manifest for '' first), or `set_timestamp`
+    appending one to the top-level Manifest when `--timestamp` was given -/
+def applyTimestamp (s1 : U.St) (setTs : Option (Ts × Bool)) : U.St :=
+  match setTs with
+  | none => s1
+  | some (ts, addIfMissing) =>
+    let found := ((L1.iterManifests s1.plain [] false).flatMap fun (k, _, _) =>
+      (s1.entriesOf k).filter fun ie => match ie.2 with | .timestamp _ => true | _ => false).head?
+    match found with
+    | some (id, _) => s1.setVal id (.timestamp ts)
+    | none => if addIfMissing then s1.append s1.top (.timestamp ts) else s1
+
+/-- `UpdateCommand.__call__` / `CreateCommand.__call__` for one path: open the
+    loader, scan (`update_entries_for_directory`), refresh the TIMESTAMP, save.
+    All file-system writes are in the result of the save step. -/
+def updateCommand (w : L1.World) (post : Str → Option L1.FileMeta) (top path : Str) (create : Bool)
+    (prof : Prof.Profile) (xdev : Bool) (o : U.Opts) (setTs : Option (Ts × Bool)) (so : U.SaveOpts) (doSave : Bool) :
+    Except L1.Err (U.St × List U.Write) :=
+  match U.openForUpdate w top create prof xdev with
+  | .error e => .error e
+  | .ok s =>
+    match U.updateDir w s path o with
+    | .error e => .error e
+    | .ok s1 =>
+      if doSave then U.saveAll w post (applyTimestamp s1 setTs) so else .ok (applyTimestamp s1 setTs, [])
+
 end Gemato.Cli
